@@ -63,19 +63,31 @@ def members_z3(fmt, reps, ia, Ls, upto=8):
     return [ia + j * Ls for j in range(n)]
 
 
-def job_query(ctx, mode, what, fmt, reps, iv, prep="ord", samezone=True, window=(-3, 6), ranges=None):
+def job_query(ctx, mode, what, fmt, reps, iv, prep="ord", samezone=True, window=(-3, 6), ranges=None, a24=False, pdec=None):
+    """a24: the anchor is written in the 24:00 end-of-day form; pdec=(form, fraction): the probe is written in a
+    decimal precision form (hh,ii / hh:mm,nn with a dyadic fraction)"""
+    from .c02 import _decimalise, _instant_any
     data = ctx.data
     C.set_mode(data, mode)
     install_range_summary(data, mode)
     kw = INTERVALS[iv]
     Ls = seconds_of(kw)
+    if a24:
+        ranges = dict(ranges or {}, h=(24, 24), mi=(0, 0), se=(0, 0))
 
     def make(e):
-        a = anchor_input(e, data, "", "ord")
-        return {"a": a, "p": probe_input(e, data, a, prep, samezone, window)}
+        a = C.point_input(e, data, "", "ord", tzh=(-3, 3), hmax=24) if a24 else anchor_input(e, data, "", "ord")
+        i = {"a": a, "p": probe_input(e, data, a, prep, samezone, window)}
+        i["pre"] = z3.And(C.m_valid_point(mode, i["a"], "ord", a24), C.m_valid_point(mode, i["p"], prep, False))
+        if pdec:
+            _decimalise(i["p"], *pdec)
+        return i
 
     def pre(i):
-        return z3.And(C.m_valid_point(mode, i["a"], "ord", False), C.m_valid_point(mode, i["p"], prep, False))
+        return i["pre"]
+
+    def inst_p(p):
+        return _instant_any(mode, p, prep) if pdec else C.m_instant(mode, p, prep)
 
     def body(i):
         a, p = i["a"], i["p"]
@@ -91,7 +103,7 @@ def job_query(ctx, mode, what, fmt, reps, iv, prep="ord", samezone=True, window=
         if out[0] != "ok":
             return [("no exception", False)]
         a, p, res = i["a"], i["p"], out[1]
-        ia, ip = L(C.m_instant(mode, a, "ord")), L(C.m_instant(mode, p, prep))
+        ia, ip = L(C.m_instant(mode, a, "ord")), L(inst_p(p))
         one = reps == 1
         if what == "valid":
             if type(res) is core.SymBool:
@@ -112,7 +124,7 @@ def job_query(ctx, mode, what, fmt, reps, iv, prep="ord", samezone=True, window=
             return [("result is a member", z3.Or([ir == m for m in ms])),
                     ("strictly later than p", ir > ip),
                     ("the earliest such member", z3.And([z3.Or(m <= ip, m >= ir) for m in ms])),
-                    ("valid point", C.m_valid_point(mode, res, C.rep_of(res), False))]
+                    ("valid point", C.m_valid_point(mode, res, C.rep_of(res), a24))]
         if res is None:
             return [("an unbounded start-anchored series always has a later member", False)]
         ir = L(C.m_instant(mode, res, C.rep_of(res)))
@@ -122,19 +134,31 @@ def job_query(ctx, mode, what, fmt, reps, iv, prep="ord", samezone=True, window=
 
     def case_of(v, i):
         ac = C.point_case(v, "", "ord")
-        return {"check": what, "mode": mode, "fmt": fmt, "reps": reps, "iv": iv, "a": ac,
-                "p": probe_case(v, prep, samezone, ac)}
+        pc = probe_case(v, prep, samezone, ac)
+        if pdec:
+            pc.pop("second_of_minute")
+            if pdec[0] == "hdec":
+                pc.pop("minute_of_hour")
+                pc["hour_of_day_decimal"] = pdec[1]
+            else:
+                pc["minute_of_hour_decimal"] = pdec[1]
+        return {"check": what, "mode": mode, "fmt": fmt, "reps": reps, "iv": iv, "a": ac, "p": pc}
 
     def zsc(i):
-        ia, ip = L(C.m_instant(mode, i["a"], "ord")), L(C.m_instant(mode, i["p"], prep))
+        ia, ip = L(C.m_instant(mode, i["a"], "ord")), L(inst_p(i["p"]))
         d = {"probe before the series": ip < ia - (Ls * ((reps or 1) - 1) if fmt == 4 else 0),
              "probe on a member": ip == ia, "probe between members": z3.And(ip > ia, ip < ia + Ls)}
+        if a24:
+            d = {"anchor written as 24:00, probe on a member": z3.Or([ip == m for m in members_z3(fmt, reps, ia, Ls)]) if reps else ip == ia}
+        if pdec:
+            d = {"probe in a decimal precision form, on a member": z3.Or([ip == m for m in members_z3(fmt, reps, ia, Ls)]) if reps else ip == ia}
         if reps is not None and fmt != 4:
             d["probe on the last member"] = ip == ia + (reps - 1) * Ls
             d["probe after the series"] = ip > ia + (reps - 1) * Ls
         return d
 
-    return sym_run("%s[%s,fmt%d,R%s,%s,probe %s%s,%s]" % (what, mode, fmt, reps, iv, prep, "" if samezone else " other zone", ranges),
+    return sym_run("%s[%s,fmt%d,R%s,%s,probe %s%s,%s%s%s]" % (what, mode, fmt, reps, iv, prep, "" if samezone else " other zone", ranges,
+                                                          ",a24" if a24 else "", ",pdec=%s" % (pdec,) if pdec else ""),
                    make, pre, body, post, case_of, scenarios_z3=zsc, ranges=ranges,
                    scenarios=lambda i: {"query:" + what: True},
                    bounds={"interval": iv, "repetitions": reps, "probe": "anchor's year, day offset %s" % (window,)},
@@ -337,6 +361,14 @@ def jobs(tier):
                         J.append(("job_query", dict(mode=mode, what="valid", fmt=fmt, reps=reps, iv=iv, window=win, ranges=rg)))
                         if fmt != 4:
                             J.append(("job_query", dict(mode=mode, what="first_after", fmt=fmt, reps=reps, iv=iv, window=win, ranges=rg)))
+        # anchors written as 24:00 and probes written in a decimal precision form
+        for fmt, reps in ((3, 3), (4, 3), (3, None)):
+            J.append(("job_query", dict(mode=mode, what="valid", fmt=fmt, reps=reps, iv="P1D", window=(-2, 4), ranges={"DOY": (360, 361)}, a24=True)))
+            J.append(("job_query", dict(mode=mode, what="valid", fmt=fmt, reps=reps, iv="PT36H", window=(-3, 6), ranges={"DOY": (100, 101)}, a24=True, samezone=False)))
+            for pdec in (("hdec", 0.5), ("mdec", 0.25)):
+                J.append(("job_query", dict(mode=mode, what="valid", fmt=fmt, reps=reps, iv="P1D", window=(-2, 4), ranges={"DOY": (360, 361), "mi": (30, 30) if pdec[0] == "hdec" else (0, 59), "se": (0, 15)}, pdec=pdec)))
+                J.append(("job_query", dict(mode=mode, what="valid", fmt=fmt, reps=reps, iv="PT90M", window=(-1, 1), ranges={"DOY": (100, 101), "h": (22, 23), "hp": (21, 23), "se": (0, 15)}, pdec=pdec, samezone=False)))
+        J.append(("job_query", dict(mode=mode, what="first_after", fmt=3, reps=3, iv="P1D", window=(-2, 4), ranges={"DOY": (360, 361)}, a24=True)))
         # probes written in another zone / representation
         for what in ("valid", "first_after"):
             J.append(("job_query", dict(mode=mode, what=what, fmt=3, reps=3, iv="PT36H", samezone=False, ranges={"DOY": (100, 100)})))
@@ -380,13 +412,13 @@ INFO = {
                    "later than p (first member if p precedes, None if none); r[i] is the i-th iterated point; get_next/get_prev "
                    "of a member is the adjacent member (None at the ends; month/year intervals: in the direction of iteration).",
     "bounds": {"quick": {"anchors": "ordinal days 100-101 (and 360-361 for PT36H, P1D), any year, whole-hour offsets +-3, any time (sub-hour intervals: last hours of the day)",
-                         "probes": "same year and zone as the anchor, day offset window around the series, any whole-second time; plus one job each with the probe in another whole-hour zone, in calendar and in week representation",
+                         "probes": "same year and zone as the anchor, day offset window around the series, any whole-second time; plus one job each with the probe in another whole-hour zone, in calendar and in week representation; get_is_valid also with the anchor written as 24:00 (P1D, PT36H) and with the probe in the hh,5 / hh:mm,25 decimal forms (P1D, PT90M)",
                          "repetitions": "start/duration 1,2,3,unbounded; start/second 3; duration/end 3 and unbounded", "mode": "gregorian"},
                "thorough": {"modes": "all 4", "anchors": "both windows for every interval"}},
     "outside": ["symbolic interval lengths", "get_first_after with month/year intervals other than P1M / P1Y or probes more than 5 months (P1M) / 3 years (P1Y) after the anchor", "fractional-second probes",
                 "probes more than the stated window away from the series"],
     "assumptions": ["get_days_in_year_range runs as its closed form (C03)"],
 }
-REQUIRED_SCENARIOS = {"all": ["first_after nominal", "probe before the nominal series", "query:valid", "query:first_after", "probe before the series", "probe on a member",
+REQUIRED_SCENARIOS = {"all": ["anchor written as 24:00, probe on a member", "probe in a decimal precision form, on a member", "first_after nominal", "probe before the nominal series", "query:valid", "query:first_after", "probe before the series", "probe on a member",
                               "probe between members", "probe on the last member", "probe after the series",
                               "neighbours", "neighbours nominal"]}
